@@ -47,6 +47,7 @@ let () = Modes.register "page" (fun records mismatches ->
   let wdump : (string, Page.page) Hashtbl.t = Hashtbl.create 64 in
   let visited : (string, string list) Hashtbl.t = Hashtbl.create 64 in
   let walks = ref 0 in
+  let cur_op = ref (-1) in
   let checked = ref 0 and unchecked = ref 0 and invs = ref 0 in
   let mism fmt = Printf.ksprintf (fun s -> incr mismatches; if !mismatches <= 30 then print_endline ("MISMATCH " ^ s)) fmt in
   (try
@@ -74,13 +75,14 @@ let () = Modes.register "page" (fun records mismatches ->
          | Some (op, wh, pg, Gone) -> Hashtbl.remove cache pg; Hashtbl.remove before pg
          | Some (op, wh, pg, Pg p) ->
            incr records; incr invs;
+           if op <> !cur_op then begin Hashtbl.reset before; cur_op := op end;   (* before-dumps belong to one op *)
            if not (Page.page_inv_b p) then mism "op %d: page invariant violated on %s %s" op pg (show p);
            if wh = "w" then Hashtbl.replace wdump pg p
            else if wh = "b" then begin
              (* an explicit before-dump must agree with what we knew (up to a silent collect) *)
              (match Hashtbl.find_opt cache pg with
               | Some c when c.Page.bsize = p.Page.bsize && c.Page.reserved = p.Page.reserved ->
-                if not (same c p || same (fst (Page.page_free_collect c false)) p) then
+                if not (same c p || same (fst (Page.page_free_collect c false)) p || same (fst (Page.page_free_collect c true)) p) then
                   (* internal activity we did not see: accept, but count *)
                   incr unchecked
               | _ -> ());
@@ -88,17 +90,24 @@ let () = Modes.register "page" (fun records mismatches ->
            end else begin
              (* after-dump: decide which transition this was *)
              (match Hashtbl.find_opt before pg with
+              | Some b when not (b.Page.bsize = p.Page.bsize && b.Page.reserved = p.Page.reserved) ->
+                (* the page was released and its descriptor re-used for another size class *)
+                Hashtbl.remove before pg; incr unchecked
               | Some b ->
                 (* a free (or the release of the old block of a moving realloc) *)
                 Hashtbl.remove before pg;
-                (match p.Page.local_free with
-                 | x :: _ when same (Page.page_free_local b x) p && L.mem x (Page.page_live b) -> incr checked
+                (match p.Page.local_free, p.Page.thread_free with
+                 | x :: _, _ when same (Page.page_free_local b x) p && L.mem x (Page.page_live b) -> incr checked
+                 | x :: _, _ when same (Page.page_free_local (fst (Page.page_free_collect b false)) x) p && L.mem x (Page.page_live b) -> incr checked
+                   (* pending remote frees of the page are collected first (page was re-adopted) *)
+                 | _, x :: _ when same (Page.page_remote_free b x) p && L.mem x (Page.page_live b) -> incr checked
+                   (* the block's segment is not owned by this thread (force-abandoned): remote-free path *)
                  | _ ->
                    (* in-place realloc / expand leave the page unchanged *)
                    if same b p then incr checked
                    else
                      (* realloc in the same page: free then allocate, or allocate then free *)
-                     let cands x = [x; fst (Page.page_free_collect x false)] in
+                     let cands x = [x; fst (Page.page_free_collect x false); fst (Page.page_free_collect x true)] in
                      let ok = L.exists (fun x -> L.exists (fun y ->
                          match Page.page_malloc y with
                          | Some (_, y') -> (match p.Page.local_free with
@@ -113,7 +122,7 @@ let () = Modes.register "page" (fun records mismatches ->
                                && BinNat.N.leb (c.Page.capacity) (p.Page.capacity) && not (BinNat.N.eqb (c.Page.used) N0) ->
                    if same c p then incr checked   (* untouched (e.g. the op failed) *)
                    else begin
-                     let xs = [c; fst (Page.page_free_collect c false)] in
+                     let xs = [c; fst (Page.page_free_collect c false); fst (Page.page_free_collect c true)] in   (* a failed request in between force-collects the heap *)
                      let ys = L.concat (L.map (fun x -> [x; Page.page_extend x]) xs) in
                      let ok = L.exists (fun y -> match Page.page_malloc y with Some (_, y') -> same y' p | None -> false) ys in
                      if ok then incr checked
